@@ -35,14 +35,54 @@ def main():
         print("patch does not apply:", r.stdout)
         subprocess.run(["git", "-C", "/repo", "worktree", "remove", "--force", str(wt)])
         sys.exit(2)
+    # ---- confirm the seeded change itself: test suite with the change, demonstration with and without it -------
+    venv = dict(os.environ)
+    venv.update({"CARGO_NET_OFFLINE": "true", "CARGO_TARGET_DIR": str(wt / "target"), "RUST_BACKTRACE": "0"})
+    confirm = {}
+    if "--no-confirm" not in a:
+        t = time.time()
+        r = subprocess.run(["cargo", "test", "--workspace", "--no-fail-fast", "--offline"], cwd=str(wt), env=venv, stdout=subprocess.PIPE, stderr=subprocess.STDOUT, text=True)
+        import re as _re
+        passed = sum(int(x) for x in _re.findall(r"test result: \w+\. (\d+) passed", r.stdout))
+        failed = sum(int(x) for x in _re.findall(r"test result: \w+\. \d+ passed; (\d+) failed", r.stdout))
+        confirm["tests_with_change"] = {"exit": r.returncode, "passed": passed, "failed": failed}
+        demo = d / "demo.sh"
+        if demo.exists():
+            r1 = subprocess.run(["bash", str(demo), str(wt)], cwd=str(d), env=venv, stdout=subprocess.PIPE, stderr=subprocess.STDOUT, text=True)
+            subprocess.run(["git", "-C", str(wt), "apply", "-R", str(d / "patch.diff")], check=True)
+            r0 = subprocess.run(["bash", str(demo), str(wt)], cwd=str(d), env=venv, stdout=subprocess.PIPE, stderr=subprocess.STDOUT, text=True)
+            subprocess.run(["git", "-C", str(wt), "apply", str(d / "patch.diff")], check=True)
+            confirm["demo_with_change_exit"] = r1.returncode
+            confirm["demo_without_change_exit"] = r0.returncode
+            confirm["demo_with_change_tail"] = r1.stdout[-400:]
+        confirm["wall_s"] = round(time.time() - t, 1)
+        print("confirm:", {k: v for k, v in confirm.items() if k != "demo_with_change_tail"})
+        # leave no build output of the demo behind in the seeded directory
+        for junk in d.glob("**/target"):
+            shutil.rmtree(junk, ignore_errors=True)
+        shutil.rmtree(wt / "target", ignore_errors=True)
+    # run from a snapshot of the machinery, so that edits made meanwhile do not change it (or its cache keys) mid-trial
+    snap = Path("/tmp") / ("stsnap_" + d.parent.name + "_" + d.name)
+    shutil.rmtree(snap, ignore_errors=True)
+    snap.mkdir()
+    for item in ("vf", "vflib", "rust", "known_findings.jsonl", "properties.jsonl"):
+        src = VERIF / item
+        if src.is_dir():
+            shutil.copytree(src, snap / item, ignore=shutil.ignore_patterns("__pycache__", "target"))
+        else:
+            shutil.copy(src, snap / item)
+    (VERIF / ".cache").mkdir(exist_ok=True)
+    (VERIF / ".work").mkdir(exist_ok=True)
+    os.symlink(VERIF / ".cache", snap / ".cache")
+    os.symlink(VERIF / ".work", snap / ".work")
     env = dict(os.environ)
     env["VERIF_REPO"] = str(wt)
     env["VERIF_SEED"] = sd
     out = {"worktree_head": subprocess.run(["git", "-C", "/repo", "rev-parse", "--short", "HEAD"], stdout=subprocess.PIPE, text=True).stdout.strip(),
-           "tier": tier, "seed": int(sd), "checks": {}}
+           "tier": tier, "seed": int(sd), "confirm": confirm, "checks": {}}
     for pid in ids:
         t = time.time()
-        r = subprocess.run([str(VERIF / "vf"), "check", pid, "--tier", tier], cwd=str(VERIF), env=env, stdout=subprocess.PIPE, stderr=subprocess.PIPE, text=True)
+        r = subprocess.run([str(snap / "vf"), "check", pid, "--tier", tier], cwd=str(snap), env=env, stdout=subprocess.PIPE, stderr=subprocess.PIPE, text=True)
         lines = r.stdout.splitlines()
         details = [l.strip() for l in r.stderr.splitlines() if "[signature=" in l][:8]
         out["checks"][pid] = {"exit": r.returncode, "wall_s": round(time.time() - t, 1),
@@ -52,6 +92,7 @@ def main():
                               "last": lines[-1] if lines else ""}
         print(pid, "exit", r.returncode, f"{time.time() - t:.0f}s", (details[:2] or lines[-1:]))
     (d / "detect.json").write_text(json.dumps(out, indent=1))
+    shutil.rmtree(snap, ignore_errors=True)
     if not keep:
         subprocess.run(["git", "-C", "/repo", "worktree", "remove", "--force", str(wt)])
         import hashlib
